@@ -427,11 +427,11 @@ class BoundedStream:
                 'This stream is closed; no further operations on it are permitted.'
             )
 
-        if self.eof:
-            return
-
         if self._iteration_started:
             raise OperationNotAllowed('This stream is already being iterated over.')
+
+        if self.eof:
+            return
 
         self._iteration_started = True
 
@@ -466,6 +466,13 @@ class BoundedStream:
                         self._pos += self._bytes_remaining
                         self._bytes_remaining = 0
 
+                    # NOTE: Take note of the last body event *before*
+                    #   yielding; the consumer may abandon the iteration at
+                    #   this point, and a subsequent exhaust() or read() must
+                    #   not await further events that will never arrive.
+                    if not ('more_body' in event and event['more_body']):
+                        self._bytes_remaining = 0
+
                     yield next_chunk
 
             # NOTE(kgriffs): Per the ASGI spec, more_body is optional
@@ -476,3 +483,7 @@ class BoundedStream:
             #   few more CPU cycles.
             if not ('more_body' in event and event['more_body']):
                 self._bytes_remaining = 0
+
+        # NOTE: The body has been consumed completely; iterating once more
+        #   simply yields nothing.
+        self._iteration_started = False
